@@ -56,7 +56,110 @@ def sub_rng(seed: int, *labels) -> random.Random:
     return random.Random(int(h[:16], 16))
 
 
+# --------------------------------------------------------------------------- private names of the package
+# The harness has to reach three things the package keeps under private names: the simulation's generator, the seed it
+# keeps, and the context's list of moving atoms. They are found by what they ARE (a numpy Generator among the object's
+# attributes, an integer attribute whose name says seed, a context slot whose name says moving), so that renaming
+# `_rng`, `_seed` or `_moving_indices` in the package is not reported as anything.
+
+import weakref as _weakref
+
+_RNG_NAMES: "_weakref.WeakKeyDictionary" = _weakref.WeakKeyDictionary()
+
+
+def rng_names(sim) -> list[str]:
+    try:
+        return _RNG_NAMES[sim]
+    except (KeyError, TypeError):
+        pass
+    import numpy as np
+
+    attrs = getattr(sim, "__dict__", {})
+    names = [k for k, v in attrs.items() if isinstance(v, np.random.Generator)]
+    if not names:
+        names = [k for k in attrs if "rng" in k.lower() or "generator" in k.lower()][:1] or ["_rng"]
+    try:
+        _RNG_NAMES[sim] = names
+    except TypeError:
+        pass
+    return names
+
+
+def get_rng(sim):
+    return getattr(sim, rng_names(sim)[0])
+
+
+def set_rng(sim, rng, context: bool = False) -> None:
+    for n in rng_names(sim):
+        setattr(sim, n, rng)
+    ctx = getattr(sim, "context", None)
+    if context and ctx is not None and hasattr(ctx, "rng"):
+        ctx.rng = rng
+
+
+def get_seed(sim) -> int:
+    import numpy as np
+
+    for k, v in getattr(sim, "__dict__", {}).items():
+        if "seed" in k.lower() and isinstance(v, (int, np.integer)) and not isinstance(v, bool):
+            return int(v)
+    return int(sim._seed)
+
+
+def moving_name(ctx) -> str:
+    for klass in type(ctx).__mro__:
+        slots = getattr(klass, "__slots__", ())
+        for n in ((slots,) if isinstance(slots, str) else slots):
+            if "moving" in n:
+                return n
+    for n in getattr(ctx, "__dict__", {}):
+        if "moving" in n:
+            return n
+    return "_moving_indices"
+
+
+def get_moving(ctx):
+    return getattr(ctx, moving_name(ctx))
+
+
+def set_moving(ctx, indices) -> None:
+    setattr(ctx, moving_name(ctx), indices)
+
+
 # --------------------------------------------------------------------------- Lean side
+
+
+class lean_lock:
+    """several checks may run at the same time on one Lean directory: builds (and regenerated sources) take the lock
+    exclusively, everything that only READS compiled files (model driver, #print axioms, leanchecker) shares it — a driver
+    never runs against a half-written .olean, and two `lake build`s never interleave"""
+
+    def __init__(self, shared: bool):
+        self.shared = shared
+        self.fh = None
+
+    def __enter__(self):
+        try:
+            import fcntl
+
+            d = LEAN / ".lake"
+            d.mkdir(parents=True, exist_ok=True)
+            self.fh = open(d / "verif.lock", "a+")
+            fcntl.flock(self.fh, fcntl.LOCK_SH if self.shared else fcntl.LOCK_EX)
+        except Exception:  # noqa: BLE001  (no lock available: behave as before)
+            self.fh = None
+        return self
+
+    def __exit__(self, *exc):
+        if self.fh is not None:
+            try:
+                import fcntl
+
+                fcntl.flock(self.fh, fcntl.LOCK_UN)
+                self.fh.close()
+            except Exception:  # noqa: BLE001
+                pass
+        return False
 
 
 def run_model(lines: list[str], timeout: float = 600) -> list[str]:
@@ -67,14 +170,15 @@ def run_model(lines: list[str], timeout: float = 600) -> list[str]:
         if "\n" in ln:
             raise ValueError("newline inside a protocol line")
     inp = "\n".join(lines) + "\n"
-    r = subprocess.run(
-        ["lake", "env", "lean", "--run", "Driver.lean"],
-        cwd=LEAN,
-        input=inp,
-        capture_output=True,
-        text=True,
-        timeout=timeout,
-    )
+    with lean_lock(shared=True):
+        r = subprocess.run(
+            ["lake", "env", "lean", "--run", "Driver.lean"],
+            cwd=LEAN,
+            input=inp,
+            capture_output=True,
+            text=True,
+            timeout=timeout,
+        )
     if r.returncode != 0:
         raise RuntimeError(f"model driver failed: {r.stderr[-2000:]}{r.stdout[-500:]}")
     out = r.stdout.split("\n")
@@ -86,9 +190,10 @@ def run_model(lines: list[str], timeout: float = 600) -> list[str]:
 
 
 def lake_build(targets: list[str], timeout: float = 3000) -> tuple[bool, str]:
-    r = subprocess.run(
-        ["lake", "build", *targets], cwd=LEAN, capture_output=True, text=True, timeout=timeout
-    )
+    with lean_lock(shared=False):
+        r = subprocess.run(
+            ["lake", "build", *targets], cwd=LEAN, capture_output=True, text=True, timeout=timeout
+        )
     return r.returncode == 0, (r.stdout + r.stderr)[-6000:]
 
 
@@ -117,9 +222,10 @@ def axiom_audit(prop: str, imports: list[str], theorems: list[str]) -> dict[str,
     body = "".join(f"import {m}\n" for m in imports)
     body += "".join(f"#print axioms {t}\n" for t in theorems)
     f.write_text(body)
-    r = subprocess.run(
-        ["lake", "env", "lean", str(f)], cwd=LEAN, capture_output=True, text=True, timeout=1800
-    )
+    with lean_lock(shared=True):
+        r = subprocess.run(
+            ["lake", "env", "lean", str(f)], cwd=LEAN, capture_output=True, text=True, timeout=1800
+        )
     text = r.stdout + r.stderr
     res: dict[str, list[str] | None] = {t: None for t in theorems}
     for t in theorems:
@@ -134,9 +240,10 @@ def axiom_audit(prop: str, imports: list[str], theorems: list[str]) -> dict[str,
 
 
 def leanchecker(modules: list[str]) -> tuple[bool, str]:
-    r = subprocess.run(
-        ["lake", "env", "leanchecker", *modules], cwd=LEAN, capture_output=True, text=True, timeout=3000
-    )
+    with lean_lock(shared=True):
+        r = subprocess.run(
+            ["lake", "env", "leanchecker", *modules], cwd=LEAN, capture_output=True, text=True, timeout=3000
+        )
     return r.returncode == 0, (r.stdout + r.stderr)[-2000:]
 
 
